@@ -22,6 +22,11 @@ func pollute(op string, args []string) {
 	for _, a := range args {
 		h.Write([]byte(a))
 	}
+	// one case in three runs WITHOUT any call in between: single-entry caches keyed on some of the arguments
+	// are only wrong when the very next call of the same function differs in the others
+	if h.Sum64()%3 == 0 {
+		return
+	}
 	g := NewGen(h.Sum64() | 1)
 	secret := g.RandBytes(g.Pick(1, 7, 16, 40))
 	ra := g.RandBytes(16)
